@@ -153,6 +153,15 @@ def run(repo, rep, tier):
     rep.ob("C04.R3", hv[0] if hv else fe, "version byte written at [0]", bool(hv) and hv[2] == "5", "",
            key="C04.R3@encoder:version")
     ht = h.get("[1]")
+    # the kind written depends on the cell's own kind only
+    from ..symexec import bool_atoms
+    for kb in enc.kinds:
+        for cnd in kb.type_conds:
+            atoms = sorted(bool_atoms(cnd))
+            foreign = [a for a in atoms if not a.replace(" ", "").startswith("self._type")]
+            rep.ob("C04.R2", kb.node, f"{kb.cls}: the type byte is chosen by the cell's own kind (`{U(cnd)[:60]}`)", not foreign,
+                   "" if not foreign else f"the type byte also depends on `{foreign[0]}`: a cell whose kind says one thing and whose references say another is written as the other kind and reopens as it "
+                   "(a NUMBER cell holding a currency format reference comes back as CURRENCY)", key=f"C04.R2@type-choice:{kb.cls}")
     rep.ob("C04.R3", ht[0] if ht else fe, "type byte written at [1]", bool(ht) and ht[2] == h.get("__type_var__", "cell_type"), "",
            key="C04.R3@encoder:type")
     hf = h.get("[8:12]")
@@ -247,6 +256,23 @@ _TABLE_BAD = _TABLE_NEW.replace("(0x8000, \"_date_format_id\"), (0x10000, \"_dur
                                 "(0x10000, \"_duration_format_id\"), (0x8000, \"_date_format_id\")")
 
 VARIANTS = [
+    T("decoder-adjacent-skips-summed", "cell.py", """        if flags & 0x80:
+            # cond_style_id skipped
+            offset += 4
+        if flags & 0x100:
+            # cond_rule_style_id skipped
+            offset += 4
+""", """        offset += 4 * sum(1 for skipped in (0x80, 0x100) if flags & skipped)
+"""),
+    M("decoder-later-skip-summed-early", "cell.py", """        if flags & 0x80:
+            # cond_style_id skipped
+            offset += 4
+        if flags & 0x100:
+            # cond_rule_style_id skipped
+            offset += 4
+""", """        offset += 4 * sum(1 for skipped in (0x80, 0x100, 0x800) if flags & skipped)
+""", "C04.R1"),
+    M("type-byte-from-format-reference", "cell.py", "            if self._type == CellType.CURRENCY:\n                cell_type = CURRENCY_CELL_TYPE", "            if self._type == CellType.CURRENCY or self._currency_format_id is not None:\n                cell_type = CURRENCY_CELL_TYPE", "C04.R2"),
     M("revert-fix-skip-in-place", "cell.py",
       "        if flags & 0x100:\n            # cond_rule_style_id skipped\n            offset += 4\n", "", "C04.R1"),
     M("swap-0x2000-0x4000-reads", "cell.py",
